@@ -119,17 +119,24 @@ def iterItems (cs : Classes) (h : Heap) (item : Val) : List Val :=
     | _ => []
   | _ => []
 
+/-- the types of `isinstance(item, (list, tuple, set, frozenset))` in `_extend_children` -/
+def seqGuard : List String := ["list", "tuple", "set", "frozenset"]
+
 /-- `_extend_children`: what gets appended to `children` for `item` -/
 def extendChildren (cs : Classes) (h : Heap) (item : Val) : List Val :=
   let c := item.clsName h
+  let viaIterate := if iterH cs c then iterItems cs h item else []
   match keysH cs c with
-  | none =>                                   -- UnregisteredTarget from `get_handler('keys', …)`
-    if iterH cs c then iterItems cs h item else []
+  | none => viaIterate                        -- UnregisteredTarget from `get_handler('keys', …)`
   | some k =>                                 -- `get` is always registered (object → getattr)
-    (keysOf h k item).filterMap (fun key =>
-      match applyGet cs h (getH cs c) item key with
-      | .ok v => some v
-      | .error _ => none)                     -- `except Exception: pass`
+    -- `if keys is _ObjStyleKeys.get_keys and isinstance(item, (list, tuple, set, frozenset)):
+    --      raise UnregisteredTarget(…)` — an instance of a sequence / set subclass is iterated
+    if k == .objKeys && seqGuard.any (isA cs c) then viaIterate
+    else
+      (keysOf h k item).filterMap (fun key =>
+        match applyGet cs h (getH cs c) item key with
+        | .ok v => some v
+        | .error _ => none)                   -- `except Exception: pass`
 
 /-- the `'x'` branch: `nxt` -/
 def starItems (cs : Classes) (h : Heap) (cur : Val) : List Val := extendChildren cs h cur
